@@ -192,9 +192,9 @@ inductive Eff (s : State) (b : Block) (sender : Addr) (funds : List Coin) : Exec
   | burn (id : Nat) (t : Token) :
       s.find? id = some t → canSend s b sender t = true →
       Eff s b sender funds (.burn id) (s.removeToken id)
-  | updateInfo (u : UpdateInfo) (info' : Info) (rua' : Nat) :
+  | updateInfo (u : UpdateInfo) (racc : Bool) (info' : Info) (rua' : Nat) :
       s.frozenInfo = false → s.info.creator = sender → info'.startTradingTime = s.info.startTradingTime →
-      Eff s b sender funds (.updateCollectionInfo u) { s with info := info', royaltyUpdatedAt := rua' }
+      Eff s b sender funds (.updateCollectionInfo u racc) { s with info := info', royaltyUpdatedAt := rua' }
   | ustt (t : Option Nat) :
       s.ownership.owner = some sender →
       Eff s b sender funds (.updateStartTradingTime t) { s with info := { s.info with startTradingTime := t } }
@@ -258,15 +258,15 @@ theorem exec_eff {s s' : State} {c : Call} (h : exec s c = .ok s') :
   case burn id =>
     obtain ⟨hs, t, hf, hc, rfl⟩ := h
     exact ⟨hs, .burn id t hf hc⟩
-  case updateCollectionInfo u =>
+  case updateCollectionInfo u racc =>
     obtain ⟨hs, hfz, hcr, -, -, -, -, h⟩ := h
     split at h
     · simp only [ensure_ok, Except.ok.injEq] at h
-      obtain ⟨-, -, -, -, rfl⟩ := h
-      exact ⟨hs, .updateInfo u _ _ hfz hcr rfl⟩
+      obtain ⟨-, rfl⟩ := h
+      exact ⟨hs, .updateInfo u racc _ _ hfz hcr rfl⟩
     · simp only [Except.ok.injEq] at h
       subst h
-      exact ⟨hs, .updateInfo u _ _ hfz hcr rfl⟩
+      exact ⟨hs, .updateInfo u racc _ _ hfz hcr rfl⟩
   case updateStartTradingTime t =>
     obtain ⟨hs, hm, rfl⟩ := h
     exact ⟨hs, .ustt t hm⟩
@@ -310,5 +310,68 @@ theorem exec_eff {s s' : State} {c : Call} (h : exec s c = .ok s') :
 theorem exec_eff' {s s' : State} {b : Block} {sender : Addr} {funds : List Coin} {msg : ExecMsg}
     (h : exec s ⟨b, sender, funds, msg⟩ = .ok s') :
     supported s.kind msg = true ∧ Eff s b sender funds msg s' := exec_eff h
+
+/-! ## Inversion of the non-message steps (migrations, the version environment step) -/
+
+/-- `AdminEff s op s'`: the non-message operation `op` takes `s` to `s'`. One constructor per successful path. -/
+inductive AdminEff (s : State) : Op → State → Prop
+  | setVersion (v : Semver.Version) : AdminEff s (.setVersion v) { s with ver := v }
+  /-- to the sg721-updatable code: only from an sg721-base / sg721-updatable name; the two flags are re-initialised
+  ONLY when coming from sg721-base -/
+  | toUpdatable (now : Nat) (rua' : Nat) :
+      (s.kind = .base ∨ s.kind = .updatable) →
+      AdminEff s (.migrate .updatable now)
+        { s with kind := .updatable,
+                 frozenMeta := if s.kind = .base then false else s.frozenMeta,
+                 updEnabled := if s.kind = .base then false else s.updEnabled,
+                 royaltyUpdatedAt := rua', ver := codeVersion .updatable }
+  | onchainSelf (now : Nat) (v' : Semver.Version) :
+      s.kind = .onchain → AdminEff s (.migrate .onchain now) { s with ver := v' }
+  | ntSelf (now : Nat) : s.kind = .nt → AdminEff s (.migrate .nt now) s
+
+/-- every successful step is a successful message or one of the `AdminEff` cases -/
+theorem step_cases {s s' : State} {op : Op} (h : step s op = .ok s') :
+    (∃ c, op = .exec c ∧ exec s c = .ok s') ∨ AdminEff s op s' := by
+  cases op with
+  | exec c => exact .inl ⟨c, rfl, h⟩
+  | setVersion v =>
+    simp only [step, Except.ok.injEq] at h
+    subst h
+    exact .inr (.setVersion v)
+  | migrate target now =>
+    right
+    cases target with
+    | base => simp [step, migrateTo] at h
+    | updatable =>
+      simp only [step, migrateTo, migrateToUpdatable, ensure_ok, Except.ok.injEq, Bool.or_eq_true,
+        decide_eq_true_eq] at h
+      obtain ⟨hk, -, -, -, -, -, rfl⟩ := h
+      exact .toUpdatable now _ hk
+    | onchain =>
+      simp only [step, migrateTo, migrateOnchainSelf, ensure_ok, decide_eq_true_eq] at h
+      obtain ⟨hk, -, -, h⟩ := h
+      split at h
+      · simp only [Except.ok.injEq] at h
+        subst h
+        exact .onchainSelf now s.ver hk
+      · simp only [ensure_ok, Except.ok.injEq] at h
+        obtain ⟨-, rfl⟩ := h
+        exact .onchainSelf now _ hk
+    | nt =>
+      simp only [step, migrateTo, migrateNtSelf, ensure_ok, Except.ok.injEq, decide_eq_true_eq] at h
+      obtain ⟨hk, -, rfl⟩ := h
+      exact .ntSelf now hk
+
+/-- no non-message step touches tokens, count, operators, ownership, collection info or the info freeze flag -/
+theorem admin_frame {s s' : State} {op : Op} (a : AdminEff s op s') :
+    s'.tokens = s.tokens ∧ s'.count = s.count ∧ s'.operators = s.operators ∧ s'.ownership = s.ownership ∧
+    s'.info = s.info ∧ s'.frozenInfo = s.frozenInfo := by
+  cases a <;> exact ⟨rfl, rfl, rfl, rfl, rfl, rfl⟩
+
+theorem admin_find? {s s' : State} {op : Op} (a : AdminEff s op s') (id : Nat) : s'.find? id = s.find? id := by
+  unfold State.find?; rw [(admin_frame a).1]
+
+theorem admin_ids {s s' : State} {op : Op} (a : AdminEff s op s') : s'.ids = s.ids := by
+  unfold State.ids; rw [(admin_frame a).1]
 
 end LP.Sg721
